@@ -130,6 +130,7 @@ type xsim struct {
 	n       int
 	uniq    int
 	recover chan struct{}
+	params0 string // chain-governed parameters of the freshly created node
 }
 
 func txid(tx *pb.Transaction) ([]byte, error) { return txhash.MakeTransactionID(tx) }
@@ -157,6 +158,7 @@ func newXSim(name string, cat *catalog, window int) (*xsim, error) {
 		return nil, err
 	}
 	s.node = node
+	s.params0 = paramsOf(node.State.GetMeta())
 	s.ids[string(node.RootBlk.Blockid)] = 1
 	s.blocks[1] = proto.Clone(node.RootBlk).(*pb.InternalBlock)
 	rtx, err := txn.GenerateRootTx(g)
@@ -631,6 +633,17 @@ type xObs struct {
 	Keys  map[string]keyObs   `json:"keys"`
 	Pool  []string            `json:"pool"`
 	Snap  []map[string]keyObs `json:"snap"`
+	// frozen / unfrozen split per address (GetBalanceDetail), range scan of the whole bucket through the live
+	// reader (Select), chain-governed parameters ("genesis" while they are what the genesis block configured)
+	Bald   [][]string `json:"bald"`
+	Scan   [][]string `json:"scan"`
+	Params string     `json:"params"`
+}
+
+// paramsOf renders the chain-governed parameters of the state meta.
+func paramsOf(m *pb.UtxoMeta) string {
+	return fmt.Sprintf("maxblock=%d newacct=%d window=%d gas=%v reserved=%v forbidden=%v group=%v", m.GetMaxBlockSize(), m.GetNewAccountResourceAmount(),
+		m.GetIrreversibleSlideWindow(), m.GetGasPrice(), m.GetReservedContracts(), m.GetForbiddenContract(), m.GetGroupChainContract())
 }
 
 func (s *xsim) keyObs(vd *kledger.VersionedData, err error) keyObs {
@@ -654,7 +667,7 @@ func (s *xsim) keyObs(vd *kledger.VersionedData, err error) keyObs {
 // project issues the public queries the properties name on node nd.
 func (s *xsim) project(nd *fx.Node) xObs {
 	st := nd.State
-	o := xObs{Keys: map[string]keyObs{}, Utxo: [][]interface{}{}, Pool: []string{}, Snap: []map[string]keyObs{}, Bal: []string{}}
+	o := xObs{Keys: map[string]keyObs{}, Utxo: [][]interface{}{}, Pool: []string{}, Snap: []map[string]keyObs{}, Bal: []string{}, Bald: [][]string{}, Scan: [][]string{}}
 	o.Ptr = s.abs(st.GetLatestBlockid())
 	o.Ltip = s.abs(nd.Ledger.GetMeta().TipBlockid)
 	meta := st.GetMeta()
@@ -662,6 +675,11 @@ func (s *xsim) project(nd *fx.Node) xObs {
 	o.Total = unscale(st.GetTotal())
 	if meta.UtxoTotal != st.GetTotal().String() {
 		o.Total = "meta:" + meta.UtxoTotal + "/total:" + o.Total
+	}
+	if p := paramsOf(meta); s.params0 == "" || p == s.params0 {
+		o.Params = "genesis"
+	} else {
+		o.Params = p
 	}
 	addrName := map[string]string{}
 	for _, a := range s.cat.Addrs {
@@ -672,6 +690,23 @@ func (s *xsim) project(nd *fx.Node) xObs {
 		} else {
 			o.Bal = append(o.Bal, unscale(b))
 		}
+		row := []string{"err", "err"}
+		if det, err := st.GetBalanceDetail(addrOf(a)); err == nil {
+			row = []string{"0", "0"}
+			for _, d := range det {
+				v, ok := new(big.Int).SetString(d.Balance, 10)
+				if !ok {
+					row = []string{"bad:" + d.Balance, "bad"}
+					break
+				}
+				if d.IsFrozen {
+					row[1] = unscale(v)
+				} else {
+					row[0] = unscale(v)
+				}
+			}
+		}
+		o.Bald = append(o.Bald, row)
 	}
 	// raw scan of the UTXO table
 	it := st.GetLDB().NewIteratorWithPrefix([]byte(pb.UTXOTablePrefix))
@@ -702,6 +737,18 @@ func (s *xsim) project(nd *fx.Node) xObs {
 	rd := st.CreateXMReader()
 	for _, k := range s.cat.Keys {
 		o.Keys[k] = s.keyObs(rd.Get(kvBucket, []byte(k)))
+	}
+	if xit, err := rd.Select(kvBucket, []byte(""), []byte("")); err != nil {
+		o.Scan = append(o.Scan, []string{"err", err.Error()})
+	} else {
+		for xit.Next() {
+			ko := s.keyObs(xit.Value(), nil)
+			o.Scan = append(o.Scan, []string{string(xit.Key()), ko.Ver})
+		}
+		if xit.Error() != nil {
+			o.Scan = append(o.Scan, []string{"err", xit.Error().Error()})
+		}
+		xit.Close()
 	}
 	pending, err := st.GetUnconfirmedTx(false)
 	if err != nil {
